@@ -8,8 +8,8 @@
    trusts member_of) can join the calls of the reachability theorem. *)
 From Coq Require Import List NArith Bool Lia Sorted.
 Import ListNotations.
-Require Import EV.Base EV.ListN EV.Access EV.Query EV.SlotMap EV.Reserve EV.HList EV.Loop EV.World EV.SlotMapGet
-  EV.ArchProofs EV.QueryProofs EV.WorldFrame EV.Store EV.Graph EV.Effects EV.Reach EV.RemoveComp.
+Require Import EV.Base EV.ListN EV.Access EV.Query EV.QueryInd EV.SlotMap EV.Reserve EV.HList EV.Loop EV.World EV.SlotMapGet
+  EV.ArchProofs EV.WorldFrame EV.Store EV.Graph EV.Effects EV.Reach EV.RemoveComp.
 Open Scope N_scope.
 
 Definition comp_live (w : world) (c : N) : Prop := get_by_index (w_comps w) c <> None.
@@ -1188,3 +1188,13 @@ Qed.
    resulting world satisfies the storage, graph and registry invariants *)
 Theorem reachable_FInv beh fuel p ops : FInv (fold_left (run_top_all beh) ops (world0 fuel p)).
 Proof. apply fold_left_invariant; [apply FInv_world0|]. intros w o. apply run_top_all_FInv. Qed.
+
+From Coq Require Import Permutation.
+Lemma swap_remove_perm {A} (l1 : list A) a l2 : Permutation (swap_remove (l1 ++ a :: l2) (nlen l1)) (l1 ++ l2).
+Proof.
+  destruct l2 as [|b l2] using rev_ind.
+  - rewrite swap_remove_snoc, N.eqb_refl, app_nil_r. reflexivity.
+  - clear IHl2. replace (l1 ++ a :: l2 ++ [b]) with ((l1 ++ a :: l2) ++ [b]) by (rewrite <- app_assoc; reflexivity).
+    rewrite swap_remove_snoc. replace (nlen l1 =? nlen (l1 ++ a :: l2)) with false by (symmetry; apply N.eqb_neq; rewrite nlen_app, nlen_cons; lia).
+    rewrite nset_app_mid. apply Permutation_app_head. apply Permutation_cons_append.
+Qed.
